@@ -38,6 +38,7 @@ def warmup(tier):
     c.simulation.mode = "Target"
     g = RegionGeomToO(c)
     g.throw(np.linspace(0, 0.9, 7))  # IERS tables, ERFA caches
+    _pool(20001, tier)  # the big pool costs 0.3 s to build: once per worker, inherited by the forked runs
 
 
 # ------------------------------------------------------------------------------ pools
@@ -295,7 +296,8 @@ def scn_history(ctx):
     memo = Memo(m)
     n_ops = 5 + ch.draw(28 if not big else 10, "n_ops")
     cheap = ("geom", "tau_exit_prob", "tau_energy_u", "tau_energy_const", "taus_call", "altDec", "geom_call_seeded", "spec")
-    allst = cheap + ("too", "radio", "eas", "eas", "too", "radio", "altDec_seeded", "taus_call_seeded", "radio_seeded")
+    allst = cheap + ("too", "radio", "eas", "eas", "too", "radio", "altDec_seeded", "taus_call_seeded", "radio_seeded", "mcint", "mcint_too")
+    last_throw = {}
     stages = cheap if big else allst
     maxlen = 20001 if big else 48
     ctx.describe.update(pool=m, n_ops=n_ops, config=cdesc)
@@ -330,8 +332,10 @@ def scn_history(ctx):
                 outs = _geom_outputs(ctx, g, n)
                 if outs is not None:
                     memo.observe(ctx, "RegionGeom.throw", "explicit-u", idx, outs, opi, n)
+                last_throw["geom"] = idx
             elif st == "geom_call_seeded":
                 g = obj("geom")
+                last_throw.pop("geom", None)  # the object's state is replaced by nn random events
                 s = ch.draw(1000, "seed")
                 nn = 1 + ch.draw(60, "n")
                 np.random.seed(s)
@@ -359,6 +363,43 @@ def scn_history(ctx):
                 outs = _too_outputs(ctx, g, n)
                 if outs is not None:
                     memo.observe(ctx, "RegionGeomToO.throw", "explicit-times", idx, outs, opi, n)
+                last_throw["too"] = idx
+            elif st in ("mcint", "mcint_too"):
+                # the acceptance integral is an aggregate, not a per-event stage; what is checked
+                # here is only that it is repeatable on one object, leaves its arguments alone and
+                # leaves the geometry object's per-event state as the last throw made it
+                which = "geom" if st == "mcint" else "too"
+                if which not in last_throw:
+                    ctx.log(f"op{opi} {st} skipped (no throw yet)")
+                    continue
+                g = obj(which)
+                tidx = last_throw[which]
+                nv = int(len(g.beta_rad()))
+                if nv == 0:
+                    ctx.log(f"op{opi} {st} skipped (no valid event)")
+                    continue
+                sel = np.resize(tidx, nv)
+                trig = np.array(P["showerE"][sel]) * 40.0
+                cth = np.cos(np.array(P["theta"][sel]))
+                pex = np.array(P["u"][sel])
+                lend = np.array(P["lenDec"][sel])
+                thr = (10.0, 0.5, 1e6)[ch.draw(3, "threshold")]
+                method = ("Optical", "Radio")[ch.draw(2, "method")]
+                margs = [trig, cth, pex, lend]
+                name = "RegionGeom.mcintegral" if which == "geom" else "RegionGeomToO.mcintegral"
+
+                def call():
+                    return g.mcintegral(trig, cth, pex, thr, 1.0, 1.0, lenDec=lend, method=method)
+
+                r1 = _guard_args(ctx, name, opi, margs, call)
+                r2 = _guard_args(ctx, name, opi, margs, call)
+                b1 = [histsim.abytes(np.asarray(x, dtype=np.float64)) for x in r1]
+                b2 = [histsim.abytes(np.asarray(x, dtype=np.float64)) for x in r2]
+                if b1 != b2:
+                    ctx.violate("c11.repeat", f"op {opi} {name} repeated on the same object with the same arguments gives {tuple(r2)!r} after {tuple(r1)!r}", sig=name)
+                outs = (_geom_outputs if which == "geom" else _too_outputs)(ctx, g, len(tidx))
+                if outs is not None:
+                    memo.observe(ctx, "RegionGeom.throw" if which == "geom" else "RegionGeomToO.throw", "explicit-u" if which == "geom" else "explicit-times", tidx, outs, opi, len(tidx))
             elif st == "spec":
                 sp = obj("spec")
                 s = ch.draw(1000, "seed")
